@@ -1,7 +1,7 @@
 (* Engine/RunSave.v — Engine/Run.v's script driver extended with the save ops of
    harness/src/bin/inkdrive.rs: SAVE k, LOAD k, LOADNEW k, SHOWSAVE, LOADTEXT.
    The driver state is Run.drv plus the table of saves.  Model file: no proofs. *)
-From Ink.Engine Require Export Run Save.
+From Ink.Engine Require Export Run Save SaveWf.
 From Ink.Gen Require Import SaveGen.
 
 Inductive hostop2 :=
@@ -163,3 +163,29 @@ Definition restored_differs (sw : switches) (orc : oracles) (panics : ssite -> b
   let b := run_case2 sw orc panics ssw j seed fuel
                      (script ++ [HSave (T "k"); HLoadNew (T "k")]) (Some (dep, budget)) in
   negb (texts_eqb (skipn (S n) a) (skipn (S n + 2) b)).
+
+(* ---------- model-only probe: are the hypotheses of the round-trip theorems met? ----------
+   after every op of the script: wf_world_b, at_save_point ('1' / '0' each; "--": no story) *)
+Fixpoint wf_trace_loop (sw : switches) (orc : oracles) (panics : ssite -> bool) (ssw : save_switches)
+         (ops : list hostop2) (d : drv2) (acc : list text) : list text :=
+  match ops with
+  | [] => rev acc
+  | op :: r =>
+      let '(_, d') := run_line2 sw orc panics ssw op d in
+      let bits := match dr_world (d2_base d') with
+                  | Some w => [if wf_world_b w then 49 else 48; if at_save_point w then 49 else 48]
+                  | None => T "--"
+                  end in
+      wf_trace_loop sw orc panics ssw r d' (bits :: acc)
+  end.
+
+Definition wf_trace (sw : switches) (orc : oracles) (panics : ssite -> bool) (ssw : save_switches)
+           (j : json) (seed : Z) (fuel : N) (script : list hostop2) : text :=
+  match load_story j with
+  | Ok st =>
+      let d0 := mkDrv (Some st) None false seed fuel in
+      let '(_, d1) := new_story sw orc d0 in
+      let '(_, d2) := summary d1 in
+      join_with [32] (wf_trace_loop sw orc panics ssw script (mkDrv2 d2 []) [])
+  | _ => T "noload"
+  end.
